@@ -328,33 +328,11 @@ fn verif_reassembler_pop_one_slot() {
     core::mem::forget(r);
 }
 
-// END TO END on the real code (no stub): a whole short stream - one segment of 1..4 arbitrary
-// bytes carrying the FIN at offset 0 - written into a fresh Reassembler and read back: the
-// application gets exactly those bytes, once, and then the clean end of the stream.
-// (A FIN segment makes allocate_slot trim the slot to the data, so no 4096-byte block is involved.)
-#[cfg_attr(kani, kani::proof)]
-#[cfg_attr(kani, kani::unwind(10))]
-fn verif_reassembler_short_stream_roundtrip() {
-    let mut r = Reassembler::new();
-    let data: [u8; 4] = kani::any();
-    let len: usize = kani::any();
-    kani::assume(len >= 1 && len <= 4);
-    let res = r.write_at_fin(VarInt::from_u8(0), &data[..len]);
-    assert!(res.is_ok());
-    assert!(r.final_size() == Some(len as u64));
-    assert!(r.total_received_len() == len as u64);
-    let chunk = r.pop().unwrap();
-    assert!(chunk.len() == len);
-    let k: usize = kani::any();
-    kani::assume(k < len);
-    assert!(chunk[k] == data[k]);
-    assert!(r.consumed_len() == len as u64);
-    assert!(r.is_reading_complete());
-    assert!(r.pop().is_none());
-    kani::cover!(len == 4, "four-byte stream");
-    core::mem::forget(chunk);
-    core::mem::forget(r);
-}
+// NOT covered: an end-to-end write-then-read on the real code without a stub. Even the smallest
+// case - one FIN segment of 1..4 bytes at offset 0 into a fresh Reassembler (allocate_slot trims the
+// slot to the data, so no 4096-byte block is involved), then pop() - was still in symbolic execution
+// after 60 min (11.4 GB). The write side is decided up to the slot-list boundary (checking stub),
+// the slot write and the read side on one-slot shapes.
 
 // ---- generated by tools/fixup.py: native replay entry ----
 #[cfg(not(kani))]
@@ -367,6 +345,5 @@ fn verif_replay() {
         ("verif_reassembler_write_stale_segment", verif_reassembler_write_stale_segment),
         ("verif_reassembler_write_reader_prework", verif_reassembler_write_reader_prework),
         ("verif_reassembler_pop_one_slot", verif_reassembler_pop_one_slot),
-        ("verif_reassembler_short_stream_roundtrip", verif_reassembler_short_stream_roundtrip),
     ]);
 }
